@@ -1170,4 +1170,482 @@ theorem okTree_subscript_plain (T : PrecTable) (star : Bool) (v s : Expr)
     okTree T star (.subscript v s) = (okTree T false v && okTree T false s) := by
   cases s <;> simp_all [okTree]
 
+theorem pickVals_cons_present (d : Doc) (ds : List Doc) (a b : Option Doc) (as bs : List (Option Doc))
+    (h : d.tag ≠ 0) : pickVals (d :: ds) (a :: as) (b :: bs) = b :: pickVals ds as bs := by
+  cases d <;> simp [Doc.tag] at h <;> simp [pickVals]
+
+theorem pickDocs_cons_present (k : Expr) (ks : List Expr) (c h : Doc) (cs hs : List Doc)
+    (hk : k.tag ≠ 0) : pickDocs (k :: ks) (c :: cs) (h :: hs) = c :: pickDocs ks cs hs := by
+  cases k <;> simp [Expr.tag] at hk <;> simp [pickDocs]
+
+theorem length_pickDocs (ks : List Expr) (cs hs : List Doc) (h1 : ks.length = cs.length)
+    (h2 : cs.length = hs.length) : (pickDocs ks cs hs).length = ks.length := by
+  induction ks generalizing cs hs with
+  | nil => simp [pickDocs]
+  | cons k ks ih =>
+    cases cs with
+    | nil => simp at h1
+    | cons c cs =>
+      cases hs with
+      | nil => simp at h2
+      | cons h hs =>
+        simp only [List.length_cons, Nat.add_right_cancel_iff] at h1 h2
+        simp [pickDocs, ih cs hs h1 h2]
+
+theorem parseArgEach_append_plain (a b : List Doc) :
+    parseArgEach (a ++ b) = parseArgEach a ++ parseArgEach b := by
+  induction a with
+  | nil => simp [parseArgEach]
+  | cons d ds ih =>
+    cases d <;> simp [parseArgEach, ih]
+
+theorem argsOrdered_append (a b : List Doc) (ha : ∀ d ∈ a, d.isKeyword = false)
+    (hb : ∀ d ∈ b, d.isKeyword = true) : argsOrdered (a ++ b) = true := by
+  induction a with
+  | nil =>
+    cases b with
+    | nil => simp [argsOrdered]
+    | cons d ds =>
+      simp only [List.nil_append, argsOrdered, hb d (by simp), if_true, List.all_eq_true]
+      intro x hx; exact hb x (by simp [hx])
+  | cons d ds ih =>
+    simp only [List.cons_append, argsOrdered, ha d (by simp)]
+    exact ih (fun x hx => ha x (by simp [hx]))
+
+theorem derives_args_nokw (xs : List Expr) (hok : okList LT true xs = true) :
+    ∀ d ∈ toDocList LT (some LT.highest) xs, d.isKeyword = false := by
+  induction xs with
+  | nil => simp [toDocList]
+  | cons x xs ih =>
+    simp only [okList, Bool.and_eq_true] at hok
+    intro d hd
+    simp only [toDocList, List.mem_cons] at hd
+    rcases hd with rfl | hd
+    · rw [isKeyword_eq, tag_toDoc]; simp [(tag_of_ok LT true x hok.1).2.1]
+    · exact ih hok.2 d hd
+
+theorem derives_kws_allkw (ks : List Expr) (hok : okKws LT ks = true) :
+    ∀ d ∈ toDocList LT (some LT.highest) ks, d.isKeyword = true := by
+  induction ks with
+  | nil => simp [toDocList]
+  | cons k ks ih =>
+    cases k <;> simp [okKws] at hok
+    intro d hd
+    simp only [toDocList, List.mem_cons] at hd
+    rcases hd with rfl | hd
+    · simp [toDoc, Doc.isKeyword]
+    · exact ih hok.2 d hd
+
+mutual
+theorem renderA_some (T : PrecTable) : ∀ (a : AExpr) (pp : Nat), okA a = true → ∃ t, renderA T pp a = some t
+  | .name s, pp, _ => ⟨s, by simp [renderA]⟩
+  | .unary op x, pp, h => by
+    simp only [okA] at h
+    obtain ⟨t, ht⟩ := renderA_some T x (T.unary op) h
+    simp [renderA, ht]
+  | .binary op l r, pp, h => by
+    simp only [okA, Bool.and_eq_true] at h
+    obtain ⟨tl, hl⟩ := renderA_some T l (if op = .pow then T.bin .pow + 1 else T.bin op) h.1
+    obtain ⟨tr, hr⟩ := renderA_some T r (if op = .pow then T.powRHS else T.bin op + 1) h.2
+    simp [renderA, hl, hr]
+  | .boolop op xs, pp, h => by
+    simp only [okA, Bool.and_eq_true] at h
+    obtain ⟨ts, hts⟩ := renderAList_some T xs (T.bool op + 1) h.2
+    simp [renderA, hts]
+  | .compare l ops rs, pp, h => by
+    simp only [okA, Bool.and_eq_true, decide_eq_true_eq] at h
+    obtain ⟨⟨⟨h1, _⟩, hl⟩, hrs⟩ := h
+    cases ops with
+    | nil => simp at h1
+    | cons op0 ops' =>
+      obtain ⟨tl, htl⟩ := renderA_some T l (T.cmp op0 + 1) hl
+      obtain ⟨ts, hts⟩ := renderAList_some T rs (T.cmp op0 + 1) hrs
+      simp [renderA, htl, hts]
+  | .ifExp b t o, pp, h => by
+    simp only [okA, Bool.and_eq_true] at h
+    obtain ⟨tb, hb⟩ := renderA_some T b (T.ifExp + 1) h.1.1
+    obtain ⟨tt, ht⟩ := renderA_some T t (T.ifExp + 1) h.1.2
+    obtain ⟨to, ho⟩ := renderA_some T o T.ifExp h.2
+    simp [renderA, hb, ht, ho]
+theorem renderAList_some (T : PrecTable) :
+    ∀ (xs : List AExpr) (pp : Nat), okAList xs = true → ∃ ts, renderAList T pp xs = some ts
+  | [], pp, _ => ⟨[], by simp [renderAList]⟩
+  | x :: xs, pp, h => by
+    simp only [okAList, Bool.and_eq_true] at h
+    obtain ⟨t, ht⟩ := renderA_some T x pp h.1
+    obtain ⟨ts, hts⟩ := renderAList_some T xs pp h.2
+    simp [renderAList, ht, hts]
+end
+
+mutual
+/-- core of the read-back theorem: an expression coloured under parent precedence `pp`, read at a
+grammar level `n` it `fits`, is the source tree -/
+theorem derives_core (e : Expr) (pp : Option Nat) (n : Nat) (star : Bool)
+    (hok : okTree LT star e = true) (htag : e.tag = 1 → n = 0) (hfit : fits LT pp n e = true) :
+    parseDoc n (toDoc LT pp e) = some (canon e) := by
+  match e, hok, htag, hfit with
+  | .name s, _, _, _ => simp [toDoc, canon, parseDoc]
+  | .dotted ps, _, _, _ => simp [toDoc, canon, parseDoc]
+  | .constNum t, _, _, _ => simp [toDoc, canon, parseDoc]
+  | .constStr s, _, _, _ => simp [toDoc, canon, parseDoc]
+  | .constBytes b, _, _, _ => simp [toDoc, canon, parseDoc]
+  | .constName k, _, _, _ => simp [toDoc, canon, parseDoc]
+  | .ellipsis, _, _, _ => simp [toDoc, canon, parseDoc]
+  | .opaque t, _, _, _ => simp [toDoc, canon, parseDoc]
+  | .constInt k, hok, _, _ =>
+    have : ¬ (Nat.toDigits 10 k).length > maxStrDigits := by
+      simp only [okTree, decide_eq_true_eq] at hok; omega
+    simp [toDoc, canon, parseDoc, this]
+  | .unknown, hok, _, _ => simp [okTree] at hok
+  | .absent, hok, _, _ => simp [okTree] at hok
+  | .keyword a v, hok, _, _ => simp [okTree] at hok
+  | .unary op x, hok, _, hfit =>
+    simp only [okTree] at hok
+    rw [toDoc, canon]
+    refine parse_wrapIf _ _ _ n op.level (by cases op <;> decide) ?_ ?_
+    · intro hb
+      have hfit' := hfit
+      simp [fits, kidOf, Kid.prec, Grammar.kidLevel, hb] at hfit'
+      exact of_decide_eq_true hfit'
+    · intro m hm
+      have hf := fits_slot (.unary op) x (fun k _ => unary_not_rightEqual op k)
+      have ih := derives_core x (some (LT.unary op)) op.level false hok
+        (fun h => absurd h ((tag_of_ok LT false x hok).2.2 rfl)) (by simpa [Slot.pp, Grammar.slotMin] using hf)
+      simp [parseDoc, hm, ih]
+  | .binary op l r, hok, _, hfit =>
+    simp only [okTree, Bool.and_eq_true, Bool.not_eq_true'] at hok
+    obtain ⟨⟨hl, hr⟩, hre⟩ := hok
+    rw [toDoc, canon]
+    refine parse_wrapIf _ _ _ n op.level (by cases op <;> decide) ?_ ?_
+    · intro hb
+      have hfit' := hfit
+      simp [fits, kidOf, Kid.prec, Grammar.kidLevel, hb] at hfit'
+      exact of_decide_eq_true hfit'
+    · intro m hm
+      have hfl := fits_slot (.binL op) l (fun k _ => binL_not_rightEqual op k)
+      have hfr := fits_slot (.binR op) r (rightEq_spec op r hre)
+      have ihl := derives_core l (some (LT.bin op + (if op = .pow then 1 else 0))) op.leftMin false hl
+        (fun h => absurd h ((tag_of_ok LT false l hl).2.2 rfl))
+        (by simpa [Slot.pp, Grammar.slotMin] using hfl)
+      have ihr := derives_core r (some (LT.bin op + (if op = .pow then 1 else 0))) op.rightMin false hr
+        (fun h => absurd h ((tag_of_ok LT false r hr).2.2 rfl))
+        (by simpa [Slot.pp, Grammar.slotMin] using hfr)
+      simp [parseDoc, hm, ihl, ihr]
+  | .boolop op xs, hok, _, hfit =>
+    simp only [okTree, Bool.and_eq_true, decide_eq_true_eq] at hok
+    rw [toDoc, canon]
+    refine parse_wrapIf _ _ _ n op.level (by cases op <;> decide) ?_ ?_
+    · intro hb
+      have hfit' := hfit
+      simp [fits, kidOf, Kid.prec, Grammar.kidLevel, hb] at hfit'
+      exact of_decide_eq_true hfit'
+    · intro m hm
+      have ih := derives_each xs (some (LT.bool op + 1)) (op.level + 1) false hok.2 (by simp)
+        (fun x _ => by
+          have hf := fits_slot (.boolArg op) x (fun k _ => bool_not_rightEqual op k)
+          simpa [Slot.pp, Grammar.slotMin] using hf)
+      simp [parseDoc, hm, ih, length_toDocList, hok.1, sequence_map_some]
+  | .list xs, hok, _, _ =>
+    simp only [okTree] at hok
+    have ih := derives_each xs (some LT.highest) 0 true hok (fun _ => rfl)
+      (fun x _ => fits_highest 0 x)
+    simp [toDoc, canon, parseDoc, ih, sequence_map_some]
+  | .set xs, hok, _, _ =>
+    simp only [okTree] at hok
+    have ih := derives_each xs (some LT.highest) 0 true hok (fun _ => rfl)
+      (fun x _ => fits_highest 0 x)
+    simp [toDoc, canon, parseDoc, ih, sequence_map_some]
+  | .tuple xs, hok, _, _ =>
+    simp only [okTree, Bool.and_eq_true, decide_eq_true_eq] at hok
+    have ih := derives_each xs (some LT.highest) 0 true hok.2 (fun _ => rfl)
+      (fun x _ => fits_highest 0 x)
+    match xs, hok, ih with
+    | [], _, _ => simp [toDoc, toDocList, canon, canonList, parseDoc]
+    | [x], hok, _ => simp at hok
+    | x :: y :: rest, _, ih =>
+      simp only [toDoc, toDocList, canon] at ih ⊢
+      rw [parse_tuple_many, ih, sequence_map_some]; rfl
+  | .dict ks vs, hok, _, _ =>
+    simp only [okTree, Bool.and_eq_true, decide_eq_true_eq] at hok
+    obtain ⟨⟨hlen, hks⟩, hvs⟩ := hok
+    have ihk := derives_keys ks hks
+    have ihv := derives_vals ks vs hlen hvs
+    have hl : (toDocList LT (some LT.highest) ks).length =
+        (pickDocs ks (toDocList LT (some LT.comma) vs) (toDocList LT (some LT.highest) vs)).length := by
+      rw [length_pickDocs _ _ _ (by simp [length_toDocList, hlen]) (by simp [length_toDocList]),
+        length_toDocList]
+    simp [toDoc, canon, parseDoc, hl, ihk, ihv, sequence_map_some]
+  | .call f args kws, hok, _, _ =>
+    simp only [okTree, Bool.and_eq_true] at hok
+    obtain ⟨⟨hf, hargs⟩, hkws⟩ := hok
+    have ihf := derives_core f (some LT.highest) 15 false hf
+      (fun h => absurd h ((tag_of_ok LT false f hf).2.2 rfl)) (fits_highest 15 f)
+    have iha := derives_args args hargs
+    have ihk := derives_kws kws hkws
+    have hord : argsOrdered (toDocList LT (some LT.highest) args ++ toDocList LT (some LT.highest) kws) = true := by
+      apply argsOrdered_append
+      · exact derives_args_nokw args hargs
+      · exact derives_kws_allkw kws hkws
+    simp [toDoc, canon, parseDoc, hord, ihf, parseArgEach_append_plain, iha, ihk, ← List.map_append,
+      sequence_map_some]
+  | .subscript v s, hok, _, _ =>
+    by_cases ht : ∃ elts, s = .tuple elts
+    · obtain ⟨elts, rfl⟩ := ht
+      simp only [okTree, Bool.and_eq_true, decide_eq_true_eq] at hok
+      obtain ⟨⟨hv, hlen⟩, helts⟩ := hok
+      have ihv := derives_core v (some LT.highest) 15 false hv
+        (fun h => absurd h ((tag_of_ok LT false v hv).2.2 rfl)) (fits_highest 15 v)
+      have ihe := derives_args elts helts
+      have hnk := derives_args_nokw elts helts
+      match elts, hlen, ihe, hnk with
+      | x :: y :: rest, _, ihe, hnk =>
+        simp only [toDoc, toDocList, canon] at ihe hnk ⊢
+        rw [parse_subscript_bare]
+        have : (toDoc LT (some LT.highest) x :: toDoc LT (some LT.highest) y ::
+            toDocList LT (some LT.highest) rest).all (!·.isKeyword) = true := by
+          rw [List.all_eq_true]; intro d hd; simp [hnk d hd]
+        rw [if_pos this, ihv, ihe, sequence_map_some]
+    · have ht' : ∀ elts, s ≠ .tuple elts := fun elts h => ht ⟨elts, h⟩
+      rw [okTree_subscript_plain _ _ _ _ ht'] at hok
+      simp only [Bool.and_eq_true] at hok
+      have ihv := derives_core v (some LT.highest) 15 false hok.1
+        (fun h => absurd h ((tag_of_ok LT false v hok.1).2.2 rfl)) (fits_highest 15 v)
+      have ihs := derives_core s (some LT.highest) 1 false hok.2
+        (fun h => absurd h ((tag_of_ok LT false s hok.2).2.2 rfl)) (fits_highest 1 s)
+      have hts : (toDoc LT (some LT.highest) s).tag = 4 := by
+        rw [tag_toDoc]
+        have := tag_of_ok LT false s hok.2
+        cases s <;> simp_all [Expr.tag]
+      rw [toDoc_subscript_plain _ _ _ _ ht', parse_subscript_plain _ _ _ hts, ihv, ihs, canon]
+  | .starred x, hok, htag, _ =>
+    simp only [okTree, Bool.and_eq_true] at hok
+    have hn : n = 0 := htag (by simp [Expr.tag])
+    subst hn
+    have ih := derives_core x (some LT.highest) 6 false hok.2
+      (fun h => absurd h ((tag_of_ok LT false x hok.2).2.2 rfl)) (fits_highest 6 x)
+    simp [toDoc, canon, parseDoc, ih]
+  | .astor a, hok, _, _ =>
+    simp only [okTree] at hok
+    have h := parseA_ok a LT.highest n hok (rel_highest n)
+    have hr : ∃ t, renderA LT LT.highest a = some t := renderA_some LT a LT.highest hok
+    obtain ⟨t, ht⟩ := hr
+    simp [toDoc, canon, ht, h]
+termination_by sizeOf e
+
+theorem derives_each (xs : List Expr) (pp : Option Nat) (n : Nat) (star : Bool)
+    (hok : okList LT star xs = true) (hst : star = true → n = 0)
+    (hfit : ∀ x ∈ xs, fits LT pp n x = true) :
+    parseEach n (toDocList LT pp xs) = (canonList xs).map some := by
+  match xs, hok, hfit with
+  | [], _, _ => simp [toDocList, canonList, parseEach]
+  | x :: xs, hok, hfit =>
+    simp only [okList, Bool.and_eq_true] at hok
+    have ih1 := derives_core x pp n star hok.1
+      (fun h => by
+        cases star with
+        | true => exact hst rfl
+        | false => exact absurd h ((tag_of_ok LT false x hok.1).2.2 rfl))
+      (hfit x (by simp))
+    have ih2 := derives_each xs pp n star hok.2 hst (fun y hy => hfit y (by simp [hy]))
+    simp [toDocList, canonList, parseEach, ih1, ih2]
+termination_by sizeOf xs
+
+theorem derives_args (xs : List Expr) (hok : okList LT true xs = true) :
+    parseArgEach (toDocList LT (some LT.highest) xs) = (canonList xs).map some := by
+  match xs, hok with
+  | [], _ => simp [toDocList, canonList, parseArgEach]
+  | x :: xs, hok =>
+    simp only [okList, Bool.and_eq_true] at hok
+    have ih2 := derives_args xs hok.2
+    by_cases hs : ∃ y, x = .starred y
+    · obtain ⟨y, rfl⟩ := hs
+      have hy : okTree LT false y = true := by
+        have := hok.1; simp only [okTree, Bool.and_eq_true] at this; exact this.2
+      have ih1 := derives_core y (some LT.highest) 1 false hy
+        (fun h => absurd h ((tag_of_ok LT false y hy).2.2 rfl)) (fits_highest 1 y)
+      simp [toDocList, toDoc, canonList, canon, parseArgEach, ih1, ih2]
+    · have htag := tag_of_ok LT true x hok.1
+      have h1 : x.tag ≠ 1 := by
+        intro h; apply hs; cases x <;> simp [Expr.tag] at h; exact ⟨_, rfl⟩
+      have ih1 := derives_core x (some LT.highest) 1 true hok.1 (fun h => absurd h h1)
+        (fits_highest 1 x)
+      rw [toDocList, parseArgEach_cons_plain _ _ (by rw [tag_toDoc]; exact h1)
+        (by rw [tag_toDoc]; exact htag.2.1), ih1, ih2]
+      simp [canonList]
+termination_by sizeOf xs
+
+theorem derives_kws (ks : List Expr) (hok : okKws LT ks = true) :
+    parseArgEach (toDocList LT (some LT.highest) ks) = (canonList ks).map some := by
+  match ks, hok with
+  | [], _ => simp [toDocList, canonList, parseArgEach]
+  | .keyword a v :: ks, hok =>
+    simp only [okKws, Bool.and_eq_true] at hok
+    have ih1 := derives_core v (some LT.highest) 1 false hok.1
+      (fun h => absurd h ((tag_of_ok LT false v hok.1).2.2 rfl)) (fits_highest 1 v)
+    have ih2 := derives_kws ks hok.2
+    simp [toDocList, toDoc, canonList, canon, parseArgEach, ih1, ih2]
+  | .name _ :: _, hok => simp [okKws] at hok
+  | .dotted _ :: _, hok => simp [okKws] at hok
+  | .constInt _ :: _, hok => simp [okKws] at hok
+  | .constNum _ :: _, hok => simp [okKws] at hok
+  | .constStr _ :: _, hok => simp [okKws] at hok
+  | .constBytes _ :: _, hok => simp [okKws] at hok
+  | .constName _ :: _, hok => simp [okKws] at hok
+  | .ellipsis :: _, hok => simp [okKws] at hok
+  | .unary _ _ :: _, hok => simp [okKws] at hok
+  | .binary _ _ _ :: _, hok => simp [okKws] at hok
+  | .boolop _ _ :: _, hok => simp [okKws] at hok
+  | .tuple _ :: _, hok => simp [okKws] at hok
+  | .list _ :: _, hok => simp [okKws] at hok
+  | .set _ :: _, hok => simp [okKws] at hok
+  | .dict _ _ :: _, hok => simp [okKws] at hok
+  | .call _ _ _ :: _, hok => simp [okKws] at hok
+  | .subscript _ _ :: _, hok => simp [okKws] at hok
+  | .starred _ :: _, hok => simp [okKws] at hok
+  | .astor _ :: _, hok => simp [okKws] at hok
+  | .opaque _ :: _, hok => simp [okKws] at hok
+  | .unknown :: _, hok => simp [okKws] at hok
+  | .absent :: _, hok => simp [okKws] at hok
+termination_by sizeOf ks
+
+theorem derives_keys (ks : List Expr) (hok : okKeys LT ks = true) :
+    parseKeyEach (toDocList LT (some LT.highest) ks) = (canonList ks).map some := by
+  match ks, hok with
+  | [], _ => simp [toDocList, canonList, parseKeyEach]
+  | k :: ks, hok =>
+    by_cases hk : k = .absent
+    · subst hk
+      simp only [okKeys] at hok
+      have ih2 := derives_keys ks hok
+      simp [toDocList, toDoc, canonList, canon, parseKeyEach, ih2]
+    · have hok' : okTree LT false k = true ∧ okKeys LT ks = true := by
+        cases k <;> simp_all [okKeys]
+      have ih1 := derives_core k (some LT.highest) 1 false hok'.1
+        (fun h => absurd h ((tag_of_ok LT false k hok'.1).2.2 rfl)) (fits_highest 1 k)
+      have ih2 := derives_keys ks hok'.2
+      rw [toDocList, parseKeyEach_cons_present _ _
+        (by rw [tag_toDoc]; exact (tag_of_ok LT false k hok'.1).1), ih1, ih2]
+      simp [canonList]
+termination_by sizeOf ks
+
+theorem derives_vals (ks vs : List Expr) (hlen : ks.length = vs.length)
+    (hok : okList LT false vs = true) :
+    pickVals (toDocList LT (some LT.highest) ks)
+      (parseEach 6 (pickDocs ks (toDocList LT (some LT.comma) vs) (toDocList LT (some LT.highest) vs)))
+      (parseEach 1 (pickDocs ks (toDocList LT (some LT.comma) vs) (toDocList LT (some LT.highest) vs)))
+      = (canonList vs).map some := by
+  match ks, vs, hlen, hok with
+  | [], [], _, _ => simp [toDocList, pickDocs, parseEach, pickVals, canonList]
+  | [], _ :: _, hlen, _ => simp at hlen
+  | _ :: _, [], hlen, _ => simp at hlen
+  | k :: ks, v :: vs, hlen, hok =>
+    simp only [okList, Bool.and_eq_true] at hok
+    simp only [List.length_cons, Nat.add_right_cancel_iff] at hlen
+    have ih2 := derives_vals ks vs hlen hok.2
+    by_cases hk : k = .absent
+    · subst hk
+      have ih1 := derives_core v (some LT.highest) 6 false hok.1
+        (fun h => absurd h ((tag_of_ok LT false v hok.1).2.2 rfl)) (fits_highest 6 v)
+      simp [toDocList, toDoc, pickDocs, parseEach, pickVals, canonList, ih1, ih2]
+    · have hkt : k.tag ≠ 0 := by cases k <;> simp_all [Expr.tag]
+      have ih1 := derives_core v (some LT.comma) 1 false hok.1
+        (fun h => absurd h ((tag_of_ok LT false v hok.1).2.2 rfl)) (fits_one _ v)
+      simp only [toDocList, canonList, List.map_cons]
+      rw [pickDocs_cons_present _ _ _ _ _ _ hkt]
+      simp only [parseEach]
+      rw [pickVals_cons_present _ _ _ _ _ _ (by rw [tag_toDoc]; exact hkt), ih1, ih2]
+termination_by sizeOf vs
+end
+
+/-! ## 4. the read-back theorems -/
+
+/- Full statement (FALSE for the current code, see the counterexamples below): for every tree of the
+shape CPython's parser produces, the displayed text, read by Python's grammar, is the source tree:
+
+theorem render_groups (e : Expr) (h : wellShaped e) :
+    ∃ d : Doc, d.flatten = render LT e ∧ parseDoc 1 d = some (canon e)
+
+It holds on `okTree`, which is `wellShaped` minus the four exclusions listed at `okTree`. -/
+
+/-- **Pyval.render_groups_partial**: the text `colorize_inline_pyval` shows is the spelling of a
+concrete syntax tree that Python's grammar reads back as the source expression — operator
+grouping, tuple-ness, argument order, stars and keywords included — for every tree in `okTree`. -/
+theorem render_groups_partial (e : Expr) (h : okTree LT false e = true) :
+    ∃ d : Doc, d.flatten = render LT e ∧ parseDoc 1 d = some (canon e) :=
+  ⟨toDoc LT none e, (render_eq_flatten LT e).symm,
+    derives_core e none 1 false h (fun ht => absurd ht ((tag_of_ok LT false e h).2.2 rfl))
+      (fits_one none e)⟩
+
+section examples
+private def a : Expr := .name ['a']
+private def b : Expr := .name ['b']
+private def c : Expr := .name ['c']
+private def one : Expr := .constInt 1
+
+/-- non-vacuity: nested operators of every kind, a call with `*`/`**`/keyword arguments, a dict with
+`**`, a two-element tuple, a subscript with an index list, a delegated comparison -/
+example : okTree LT false
+    (.binary .mult (.binary .add a (.unary .usub b))
+      (.call (.name ['f']) [.tuple [a, .boolop .or [b, c]], .starred c]
+        [.keyword (some ['k']) (.dict [a, .absent] [.binary .pow b c, c]),
+         .keyword none (.subscript a (.tuple [b, .astor (.compare (.name ['x']) [.lt] [.name ['y']])]))])) = true := by
+  decide +kernel
+
+example : render LT
+    (.binary .mult (.binary .add a (.unary .usub b))
+      (.call (.name ['f']) [.tuple [a, .boolop .or [b, c]], .starred c]
+        [.keyword (some ['k']) (.dict [a, .absent] [.binary .pow b c, c]),
+         .keyword none (.subscript a (.tuple [b, .astor (.compare (.name ['x']) [.lt] [.name ['y']])]))]))
+    = "(a+-b)*f((a, (b or c)), *c, k={a: b**c, **c}, **a[b, (x < y)])".toList := by
+  decide +kernel
+
+/-- `a-(b-c)`, `a/(b*c)`, `a-(b+c)` are displayed exactly like `(a-b)-c`, `(a/b)*c`, `(a-b)+c`:
+two different expressions, one text — and the text reads back as the second. -/
+theorem render_groups_counterexample :
+    (render LT (.binary .sub a (.binary .sub b c)) = "a-b-c".toList ∧
+      render LT (.binary .sub (.binary .sub a b) c) = "a-b-c".toList) ∧
+    (render LT (.binary .div a (.binary .mult b c)) = "a/b*c".toList ∧
+      render LT (.binary .mult (.binary .div a b) c) = "a/b*c".toList) ∧
+    (render LT (.binary .sub a (.binary .add b c)) = "a-b+c".toList ∧
+      render LT (.binary .add (.binary .sub a b) c) = "a-b+c".toList) ∧
+    parseDoc 1 (toDoc LT none (.binary .sub a (.binary .sub b c))) = none ∧
+    okTree LT false (.binary .sub a (.binary .sub b c)) = false := by
+  refine ⟨⟨?_, ?_⟩, ⟨?_, ?_⟩, ⟨?_, ?_⟩, ?_, ?_⟩ <;> decide +kernel
+
+/- Full statement (FALSE for the current code): a tuple is displayed as a tuple in every context:
+
+theorem tuple_kept (xs : List Expr) (pp : Option Nat) (n : Nat) (h : okList LT true xs = true) :
+    parseDoc n (toDoc LT pp (.tuple xs)) = some (.tuple (canonList xs) false) -/
+
+/-- **Pyval.tuple_kept_partial**: holds for every tuple whose length is not one -/
+theorem tuple_kept_partial (xs : List Expr) (pp : Option Nat) (n : Nat)
+    (hlen : xs.length ≠ 1) (h : okList LT true xs = true) :
+    parseDoc n (toDoc LT pp (.tuple xs)) = some (.tuple (canonList xs) false) := by
+  have := derives_core (.tuple xs) pp n false (by simp [okTree, hlen, h]) (by simp [Expr.tag])
+    (by simp [fits, kidOf])
+  simpa [canon] using this
+
+example : parseDoc 0 (toDoc LT (some LT.highest) (.tuple [a, .tuple [], .starred b])) =
+    some (.tuple [.atom ['a'], .tuple [] false, .starred (.atom ['b'])] false) :=
+  tuple_kept_partial _ _ _ (by decide) (by decide +kernel)
+
+/-- `(a,)` is displayed as `(a)`, `x[1,]` as `x[1]`, `f((1,))` as `f((1))`, `x[()]` as `x[]`,
+`(*a,)` as `(*a)`: the comma is never written, and Python reads a group / a plain index / nothing. -/
+theorem tuple_kept_counterexample :
+    render LT (.tuple [a]) = "(a)".toList ∧
+    parseDoc 1 (toDoc LT none (.tuple [a])) = some (.atom ['a']) ∧
+    render LT (.subscript (.name ['x']) (.tuple [one])) = "x[1]".toList ∧
+    parseDoc 1 (toDoc LT none (.subscript (.name ['x']) (.tuple [one]))) =
+      some (.subscript (.atom ['x']) (.atom ['1'])) ∧
+    render LT (.call (.name ['f']) [.tuple [one]] []) = "f((1))".toList ∧
+    parseDoc 1 (toDoc LT none (.call (.name ['f']) [.tuple [one]] [])) =
+      some (.call (.atom ['f']) [.atom ['1']]) ∧
+    render LT (.subscript (.name ['x']) (.tuple [])) = "x[]".toList ∧
+    parseDoc 1 (toDoc LT none (.subscript (.name ['x']) (.tuple []))) = none ∧
+    render LT (.tuple [.starred a]) = "(*a)".toList ∧
+    parseDoc 1 (toDoc LT none (.tuple [.starred a])) = none := by
+  refine ⟨?_, ?_, ?_, ?_, ?_, ?_, ?_, ?_, ?_, ?_⟩ <;> first | decide +kernel | rfl
+
+end examples
+
 end Pyval
